@@ -1,10 +1,23 @@
 package p17
 
+// Failure signatures of listed findings (stable identifiers, see findings/<sig>.json).
+const (
+	// the new ReplicaSet is created with 1 replica although neither partition nor surge admits a pod
+	sigCreate = "new-rs-created-beyond-partition-or-surge"
+	// a paused Deployment whose ReplicaSets do not sum to spec.replicas is rebalanced at once,
+	// regardless of partition and availability
+	sigPaused = "paused-rebalance-ignores-partition-or-availability"
+	// the only active ReplicaSet is an old one that already has spec.replicas pods but a stale
+	// desired-replicas annotation: every sync is a "scaling event", the rollout never starts
+	sigStuck = "no-convergence-stale-desired-replicas"
+)
+
 // knownOpen lists confirmed, still-open findings of C17 by signature. While an entry is true the
 // generator marks the case as "excused" for exactly that finding's input class (counted with
 // vlib.Excluded) so that the search continues behind it; the finding's own replay file in
 // findings/ was written with the entry switched off and therefore still fails.
 var knownOpen = map[string]bool{
-	sigCreate:      true,
-	sigPausedAvail: true,
+	sigCreate: true,
+	sigPaused: true,
+	sigStuck:  true,
 }
